@@ -205,14 +205,27 @@ func fmod(t *rt.Thread, c *rt.GoCont) (rt.Cont, error) {
 	}
 	x, _ := rt.ToNumberValue(c.Arg(0))
 	y, _ := rt.ToNumberValue(c.Arg(1))
-	res, ok, err := rt.Mod(x, y)
-	if !ok {
-		err = errors.New("expected numeric arguments")
+	// math.fmod rounds the quotient towards zero (like C's fmod), unlike the %
+	// operator which rounds it towards minus infinity.
+	nx, okx := x.TryInt()
+	ny, oky := y.TryInt()
+	if okx && oky {
+		switch ny {
+		case 0:
+			return nil, errors.New("attempt to perform 'n%0'")
+		case -1:
+			// Avoid overflow with math.MinInt64
+			return c.PushingNext1(t.Runtime, rt.IntValue(0)), nil
+		default:
+			return c.PushingNext1(t.Runtime, rt.IntValue(nx%ny)), nil
+		}
 	}
-	if err != nil {
-		return nil, err
+	fx, okx := rt.ToFloat(x)
+	fy, oky := rt.ToFloat(y)
+	if !okx || !oky {
+		return nil, errors.New("expected numeric arguments")
 	}
-	return c.PushingNext1(t.Runtime, res), nil
+	return c.PushingNext1(t.Runtime, rt.FloatValue(math.Mod(fx, fy))), nil
 }
 
 func log(t *rt.Thread, c *rt.GoCont) (rt.Cont, error) {
